@@ -1,4 +1,5 @@
 //! Loopback mock services (real sockets, real time).
+pub mod grpc;
 pub mod http;
 
 use std::sync::OnceLock;
